@@ -876,6 +876,75 @@ fn stale_ids(which: u64, ctx: &mut Ctx) {
 				ctx.transitions += 6;
 				ctx.nontrivial(hash64(&("resume on removed clock", persisting_host)));
 			}
+			// stop() from every playback state: whatever the sound was doing, a stopped sound finishes, is unloaded, frees its slot,
+			// and a persisting track that only waited for it goes away
+			const PRE: [&str; 8] = ["playing", "pausing (2 s fade in progress)", "paused (instant pause, one callback)", "paused (8-frame fade, three callbacks)", "waiting to resume (resume_at Delayed 1000 s)", "resuming (2 s fade in progress)", "waiting for a delayed start (1000 s)", "pause and stop in the same interval"];
+			for pre in 0..PRE.len() {
+				for stop_frames in [0u64, 8] {
+					for persisting_host in [false, true] {
+						let mut m = rig::manager(sr, 4, rig::caps(2), MainTrackBuilder::new().sound_capacity(1));
+						let mut host = if persisting_host { Some(m.add_sub_track(TrackBuilder::new().persist_until_sounds_finish(true).sound_capacity(1)).unwrap()) } else { None };
+						let data = if pre == 6 { dc_loop().start_time(StartTime::Delayed(Duration::from_secs(1000))) } else { dc_loop() };
+						let mut h = match host.as_mut() {
+							Some(t) => t.play(data).unwrap(),
+							None => m.play(data).unwrap(),
+						};
+						let tag = "stop from every state";
+						cb(&mut m, &mut buf, ctx, tag);
+						let instant = Tween { duration: Duration::ZERO, ..Default::default() };
+						let long = Tween { start_time: StartTime::Immediate, duration: Duration::from_secs(2), easing: Easing::Linear };
+						let short = Tween { start_time: StartTime::Immediate, duration: Duration::from_secs(1), easing: Easing::Linear };
+						match pre {
+							1 => {
+								h.pause(long);
+								cb(&mut m, &mut buf, ctx, tag);
+							}
+							2 => {
+								h.pause(instant);
+								cb(&mut m, &mut buf, ctx, tag);
+							}
+							3 => {
+								h.pause(short);
+								for _ in 0..3 {
+									cb(&mut m, &mut buf, ctx, tag);
+								}
+							}
+							4 => {
+								h.pause(instant);
+								h.resume_at(StartTime::Delayed(Duration::from_secs(1000)), instant);
+								cb(&mut m, &mut buf, ctx, tag);
+							}
+							5 => {
+								h.pause(instant);
+								cb(&mut m, &mut buf, ctx, tag);
+								h.resume(long);
+								cb(&mut m, &mut buf, ctx, tag);
+							}
+							7 => h.pause(instant),
+							_ => {}
+						}
+						let before = h.state();
+						h.stop(Tween { start_time: StartTime::Immediate, duration: Duration::from_secs_f64(stop_frames as f64 / sr as f64), easing: Easing::Linear });
+						let had_host = host.is_some();
+						drop(host.take());
+						for _ in 0..4 {
+							cb(&mut m, &mut buf, ctx, tag);
+						}
+						let what = format!("looping sound on {}, {} (state {:?}); stop({} frames){}; 4 callbacks of 8 frames", if had_host { "a persist_until_sounds_finish(true) track" } else { "the main track" }, PRE[pre], before, stop_frames, if had_host { "; the track's handle dropped" } else { "" });
+						if h.state() != PlaybackState::Stopped {
+							ctx.fail("a stopped sound never becomes Stopped :: stop from every playback state", format!("{}: state {:?}", what, h.state()));
+						}
+						let n = if had_host { m.num_sub_tracks() } else { m.main_track().num_sounds() };
+						if n != 0 {
+							ctx.fail("a stopped sound is never unloaded (its slot / its persisting track leaks) :: stop from every playback state", format!("{}: {} still counted", what, n));
+						} else if !had_host && m.play(dc_loop()).is_err() {
+							ctx.fail("the slot of a stopped sound is not free again :: stop from every playback state", what.clone());
+						}
+						ctx.transitions += 6;
+						ctx.nontrivial(hash64(&("stop from state", pre, stop_frames, persisting_host)));
+					}
+				}
+			}
 			// a streaming sound whose decoder fails while the sound is not audible (paused / waiting for its start time): it
 			// becomes Stopped and is unloaded all the same - its slot is free again
 			for state in 0..3 {
